@@ -71,10 +71,13 @@ class State:
 class Dep:
     """forward may-dataflow of pointer targets, index tags and data dependences of one function"""
 
-    def __init__(self, prog, f, roles):
+    def __init__(self, prog, f, roles, bind=None, depth=0):
         self.prog, self.f, self.roles = prog, f, roles        # roles: param name -> leaf name ('x', 'y')
+        self.bind = bind or {}                                # helper analysis: param name -> ('cell', deps, direct) | ('ptr', targets) | ('int', tags)
+        self.depth = depth
         self.IN = {}
         self.gmp_locals = {n for n, t in f.ltypes.items() if t and t.startswith(("mpq_t", "__mpq_struct[1]")) and "*" not in t}
+        self.param_cells = {n for n, v in self.bind.items() if v[0] == "cell"}
         self.run()
 
     # ---- index tags
@@ -97,7 +100,7 @@ class Dep:
         if d:
             return fs("D:" + d)
         if is_var(t):
-            if t[1] == "l":
+            if t[1] == "l" or (t[1].startswith("p") and t[2] in st.itag):
                 return st.itag.get(t[2], fs(Q))
             return fs(Q)
         if t[0] == "i":
@@ -159,6 +162,8 @@ class Dep:
                 return st.ptr.get(t[2], fs())
             if t[1].startswith("p"):
                 nm = t[2]
+                if nm in st.ptr:
+                    return st.ptr[nm]
                 return fs((self.roles.get(nm, "P:" + nm), None))
             return fs()
         if t[0] == "m":
@@ -189,6 +194,8 @@ class Dep:
         t = strip(t)
         if is_var(t):
             if t[1] == "l" and t[2] in self.gmp_locals:
+                return ("cell", fs(t[2]))
+            if t[1].startswith("p") and t[2] in self.param_cells:
                 return ("cell", fs(t[2]))
             if t[1] in ("g", "sg"):
                 return ("leaf", fs("G:" + t[2]))
@@ -290,6 +297,43 @@ class Dep:
             return
         if n in GMP_IGNORE or n is None:
             return
+        g = self.prog.resolve(self.f, c[1]) if c[1] is not None else None
+        if g is not None and g.blocks and g.live is not None and self.depth < 2 and g.key != self.f.key:
+            # a helper of the test: analyse it with the caller's bindings and take over what it leaves in the numbers it was handed
+            bind, back = {}, []
+            for k2, a in enumerate(args):
+                if k2 >= len(g.params):
+                    break
+                pn, pty = g.params[k2][0], g.params[k2][2]
+                if "__mpq_struct *" in pty and "(*)" not in pty:
+                    kind, names = self.operand(a, st)
+                    bind[pn] = ("cell", self.read(a, st), self.direct(a, st))
+                    back.append((pn, kind, names))
+                elif "*" in pty:
+                    bind[pn] = ("ptr", self.targets(a, st))
+                else:
+                    bind[pn] = ("int", self.tag(a, st))
+            if back:
+                key = (g.key, tuple(sorted((k3, v[0], tuple(sorted(map(str, v[1])))) for k3, v in bind.items())))
+                memo = self.prog.__dict__.setdefault("_certdep_helper_memo", {})
+                if key not in memo:
+                    sub = Dep(self.prog, g, self.roles, bind=bind, depth=self.depth + 1)
+                    memo[key] = sub.IN.get(g.exit) or State()
+                out = memo[key]
+                for (pn, kind, names) in back:
+                    deps = out.dep.get(pn, fs())
+                    if kind == "cell":
+                        for nm in names:
+                            st.dep[nm] = deps
+                            st.cp[nm] = out.cp.get(pn, fs())
+                    else:
+                        for nm in names:
+                            st.dep["A:" + nm] = st.dep.get("A:" + nm, fs()) | deps
+                # arrays the helper wrote through pointers it was handed
+                for k3, v in out.dep.items():
+                    if k3.startswith("A:"):
+                        st.dep[k3] = st.dep.get(k3, fs()) | v
+                return
         # any other callee given the address of a local number: unknown contents
         for a in args:
             k, names = self.operand(a, st)
@@ -314,7 +358,16 @@ class Dep:
 
     def run(self):
         f, prog = self.f, self.prog
-        self.IN[f.entry] = State()
+        st0 = State()
+        for nm, v in self.bind.items():
+            if v[0] == "cell":
+                st0.dep[nm] = v[1]
+                st0.cp[nm] = v[2]
+            elif v[0] == "ptr":
+                st0.ptr[nm] = v[1]
+            elif v[0] == "int":
+                st0.itag[nm] = v[1]
+        self.IN[f.entry] = st0
         wl = collections.deque([f.entry])
         n = 0
         while wl:
